@@ -9,8 +9,10 @@ import (
 	"math"
 	"math/rand"
 	"os"
+	"os/exec"
 	"path/filepath"
 	"sort"
+	"strconv"
 	"strings"
 	"sync"
 	"sync/atomic"
@@ -56,7 +58,45 @@ func init() {
 }
 
 // enc is a canonical bit-exact encoding of a result.
-type enc struct{ u []uint64 }
+type enc struct {
+	u []uint64
+	// evaluation order of the calls inside one entry: rev = descending /
+	// swapped, rot = rotation (set per goroutine in the concurrent stages,
+	// and in the second process of the cross-process stage). The encoding is
+	// always in canonical order, so results are comparable across orders.
+	rev bool
+	rot int
+}
+
+// seq returns the indexes 0..n-1 in the evaluation order of this call.
+func (e *enc) seq(n int) []int {
+	out := make([]int, n)
+	for i := range out {
+		k := (i + e.rot) % n
+		if e.rev {
+			k = n - 1 - k
+		}
+		out[i] = k
+	}
+	return out
+}
+
+// each evaluates f(i) for i in 0..n-1 in the evaluation order and encodes the
+// m results per index in canonical order.
+func (e *enc) each(n, m int, f func(i int) []float64) {
+	if n <= 0 {
+		return
+	}
+	res := make([][]float64, n)
+	for _, i := range e.seq(n) {
+		res[i] = f(i)
+	}
+	for _, r := range res {
+		for _, x := range r {
+			e.F(x)
+		}
+	}
+}
 
 func (e *enc) F(x float64) { e.u = append(e.u, math.Float64bits(x)) }
 func (e *enc) I(x int)     { e.u = append(e.u, uint64(x)) }
@@ -122,20 +162,24 @@ type bundle struct {
 	gh                                     *stats.LogHist
 	marks                                  *graphalg.NodeMarks
 	ss                                     *stats.StreamStats
-	lin                                    *scale.Linear
-	lg                                     *scale.Log
-	g, g2                                  graph.IntGraph
-	wg                                     *c20Weighted
-	bi                                     graph.BiGraph
-	idom                                   []int
-	keepNodes, rmNodes                     []int
-	keepEdges, rmEdges                     []graph.Edge
-	root                                   int
-	labels                                 []string
-	ud                                     stats.UDist
-	n                                      int
-	q, c, y, x                             float64
-	rseed                                  int64
+	// closures returned by the library, shared by all callers of the bundle
+	invT, invB, invK   func(float64) float64
+	genT               func(*rand.Rand) float64
+	levels             []float64
+	lin                *scale.Linear
+	lg                 *scale.Log
+	g, g2              graph.IntGraph
+	wg                 *c20Weighted
+	bi                 graph.BiGraph
+	idom               []int
+	keepNodes, rmNodes []int
+	keepEdges, rmEdges []graph.Edge
+	root               int
+	labels             []string
+	ud                 stats.UDist
+	n                  int
+	q, c, y, x         float64
+	rseed              int64
 }
 
 type c20Weighted struct {
@@ -339,6 +383,11 @@ func newBundle(seed uint64) *bundle {
 	b.y = rng.Uniform(0.05, 0.95)
 	b.x = rng.Uniform(-3, 3)
 	b.rseed = int64(rng.Uint64() >> 1)
+	b.invT = stats.InvCDF(stats.TDist{V: 4})
+	b.invB = stats.InvCDF(stats.BinomialDist{N: b.n, P: b.q})
+	b.invK = stats.InvCDF(b.kde)
+	b.genT = stats.Rand(stats.TDist{V: 6})
+	b.levels = b.carveF("levels", rng, []float64{0.03, 0.2, 0.41, 0.5, 0.77, 0.9, 0.99, b.y})
 	return b
 }
 
@@ -428,16 +477,13 @@ var c20Inventory = []entry{
 		c.Sort()
 	}},
 	{"MannWhitneyUTest", []string{"stats.MannWhitneyUTest"}, "stats", func(b *bundle, e *enc) {
-		for _, alt := range alts {
-			r, err := stats.MannWhitneyUTest(b.x1, b.x2, alt)
-			e.Err(err)
-			if r != nil {
-				e.I(r.N1)
-				e.I(r.N2)
-				e.F(r.U)
-				e.F(r.P)
+		e.each(len(alts), 5, func(i int) []float64 {
+			r, err := stats.MannWhitneyUTest(b.x1, b.x2, alts[i])
+			if err != nil || r == nil {
+				return []float64{-1, 0, 0, 0, 0}
 			}
-		}
+			return []float64{0, float64(r.N1), float64(r.N2), r.U, r.P}
+		})
 	}},
 	{"TwoSampleTTest", []string{"stats.TwoSampleTTest"}, "stats", func(b *bundle, e *enc) {
 		r, err := stats.TwoSampleTTest(stats.Sample{Xs: b.x1}, stats.Sample{Xs: b.x2}, stats.LocationDiffers)
@@ -478,6 +524,13 @@ var c20Inventory = []entry{
 		e.F(stats.InvCDF(b.kde)(b.y))
 		e.F(stats.InvCDF(stats.NormalDist{Mu: 1, Sigma: 2})(b.y))
 	}},
+	{"shared InvCDF/Rand closures", []string{"stats.InvCDF", "stats.Rand"}, "stats", func(b *bundle, e *enc) {
+		// one returned function evaluated by many callers at different levels
+		e.each(len(b.levels), 3, func(i int) []float64 { return []float64{b.invT(b.levels[i]), b.invB(b.levels[i]), b.invK(b.levels[i])} })
+		r := rand.New(rand.NewSource(b.rseed + 1))
+		e.F(b.genT(r))
+		e.F(b.genT(r))
+	}},
 	{"Rand(generic)", []string{"stats.Rand", "stats.NormalDist.Rand"}, "stats", func(b *bundle, e *enc) {
 		r := rand.New(rand.NewSource(b.rseed))
 		e.F(stats.Rand(stats.TDist{V: 3})(r))
@@ -515,10 +568,10 @@ var c20Inventory = []entry{
 	{"Binomial/Hypergeometric methods", []string{"stats.BinomialDist.PMF", "stats.BinomialDist.CDF", "stats.BinomialDist.Bounds", "stats.BinomialDist.Step", "stats.BinomialDist.Mean", "stats.BinomialDist.Variance", "stats.BinomialDist.NormalApprox",
 		"stats.HypergeometicDist.PMF", "stats.HypergeometicDist.CDF", "stats.HypergeometicDist.Bounds", "stats.HypergeometicDist.Step", "stats.HypergeometicDist.Mean", "stats.HypergeometicDist.Variance"}, "stats", func(b *bundle, e *enc) {
 		d := stats.BinomialDist{N: b.n, P: b.q}
-		for k := -1; k <= b.n+1; k++ {
-			e.F(d.PMF(float64(k)))
-			e.F(d.CDF(float64(k) + 0.5))
-		}
+		e.each(b.n+3, 2, func(i int) []float64 {
+			k := float64(i - 1)
+			return []float64{d.PMF(k), d.CDF(k + 0.5)}
+		})
 		l, h := d.Bounds()
 		e.F(l)
 		e.F(h)
@@ -529,10 +582,10 @@ var c20Inventory = []entry{
 		e.F(na.Mu)
 		e.F(na.Sigma)
 		hg := stats.HypergeometicDist{N: b.n + 10, K: b.n / 2, Draws: b.n/3 + 3}
-		for k := -1; k <= b.n; k++ {
-			e.F(hg.PMF(float64(k)))
-			e.F(hg.CDF(float64(k)))
-		}
+		e.each(b.n+2, 2, func(i int) []float64 {
+			k := float64(i - 1)
+			return []float64{hg.PMF(k), hg.CDF(k)}
+		})
 		l, h = hg.Bounds()
 		e.F(l)
 		e.F(h)
@@ -541,15 +594,20 @@ var c20Inventory = []entry{
 		e.F(hg.Variance())
 	}},
 	{"UDist methods", []string{"stats.UDist.PMF", "stats.UDist.CDF", "stats.UDist.Bounds", "stats.UDist.Step"}, "stats", func(b *bundle, e *enc) {
-		for u := 0.0; u <= float64(b.ud.N1*b.ud.N2); u += 0.5 {
-			e.F(b.ud.PMF(u))
-			e.F(b.ud.CDF(u))
-		}
+		e.each(2*b.ud.N1*b.ud.N2+1, 2, func(i int) []float64 {
+			u := float64(i) / 2
+			return []float64{b.ud.PMF(u), b.ud.CDF(u)}
+		})
+		// the mirror distribution (N2,N1,T): a cache keyed on a canonical
+		// (smaller size first) form would make results depend on which of
+		// the two was evaluated first
+		mir := stats.UDist{N1: b.ud.N2, N2: b.ud.N1, T: b.ud.T}
+		e.each(2*b.ud.N1*b.ud.N2+1, 2, func(i int) []float64 {
+			u := float64(i) / 2
+			return []float64{mir.PMF(u), mir.CDF(u)}
+		})
 		un := stats.UDist{N1: 6, N2: 7}
-		for u := 0.0; u <= 42; u++ {
-			e.F(un.PMF(u))
-			e.F(un.CDF(u))
-		}
+		e.each(43, 2, func(i int) []float64 { return []float64{un.PMF(float64(i)), un.CDF(float64(i))} })
 		l, h := b.ud.Bounds()
 		e.F(l)
 		e.F(h)
@@ -557,10 +615,8 @@ var c20Inventory = []entry{
 	}},
 	{"KDE methods", []string{"stats.KDE.PDF", "stats.KDE.CDF", "stats.KDE.Bounds"}, "stats", func(b *bundle, e *enc) {
 		for _, k := range []*stats.KDE{b.kde, b.kdeB} {
-			for _, x := range b.grid {
-				e.F(k.PDF(x))
-				e.F(k.CDF(x))
-			}
+			k := k
+			e.each(len(b.grid), 2, func(i int) []float64 { return []float64{k.PDF(b.grid[i]), k.CDF(b.grid[i])} })
 			l, h := k.Bounds()
 			e.F(l)
 			e.F(h)
@@ -615,10 +671,16 @@ var c20Inventory = []entry{
 		e.F(mathx.BetaInc(b.y, 2.5, 7))
 		e.F(mathx.GammaInc(3.5, 10*b.y))
 		e.F(mathx.GammaIncComp(3.5, 10*b.y))
-		for k := 0; k <= b.n; k++ {
-			e.F(mathx.Choose(b.n, k))
-			e.F(mathx.Lchoose(b.n+30, k))
-		}
+		e.each(b.n+1, 3, func(k int) []float64 {
+			return []float64{mathx.Choose(b.n, k), mathx.Lchoose(b.n+30, k), mathx.Choose(b.n+30, k)}
+		})
+		// mirrored argument pairs of the symmetric functions
+		e.each(2, 1, func(i int) []float64 {
+			if i == 0 {
+				return []float64{mathx.BetaInc(b.y, 2.5, 7)}
+			}
+			return []float64{mathx.BetaInc(1-b.y, 7, 2.5)}
+		})
 		e.F(mathx.Sign(b.x))
 	}},
 	// ---- vec
@@ -774,9 +836,90 @@ var c20Inventory = []entry{
 
 // runEntry performs one call with panic capture.
 func runEntry(en *entry, b *bundle) (res []uint64, panicked bool, pv any) {
-	var e enc
+	return runEntryO(en, b, false, 0)
+}
+
+// runEntryO performs the call with a given evaluation order inside the entry.
+func runEntryO(en *entry, b *bundle, rev bool, rot int) (res []uint64, panicked bool, pv any) {
+	e := enc{rev: rev, rot: rot}
 	panicked, pv = mon.Call(func() { en.call(b, &e) })
 	return e.u, panicked, pv
+}
+
+// c20Digests runs the inventory over a fixed list of bundles and returns one
+// digest per (bundle, entry). With rev the bundles, the entries and the calls
+// inside each entry are evaluated in the opposite order: every function must
+// return the same bits "whatever calls were made before", so the digests of
+// two processes that differ only in call order must be identical.
+func c20Digests(seed uint64, rev bool, m int) map[string]uint64 {
+	out := map[string]uint64{}
+	ne := len(c20Inventory)
+	for bi := 0; bi < m; bi++ {
+		i := bi
+		if rev {
+			i = m - 1 - bi
+		}
+		b := newBundle(mon.NewRand(seed, 0xd16, uint64(i)).Uint64())
+		for ej := 0; ej < ne; ej++ {
+			j := ej
+			if rev {
+				j = ne - 1 - ej
+			}
+			en := &c20Inventory[j]
+			rot := 0
+			if rev {
+				rot = 3
+			}
+			u, p, _ := runEntryO(en, b, rev, rot)
+			h := mon.NewHasher().B(p)
+			for _, x := range u {
+				h = h.U(x)
+			}
+			out[fmt.Sprintf("%d/%s", i, en.name)] = h.Sum()
+		}
+	}
+	return out
+}
+
+// c20CrossProcess compares this process's digests (forward order) with those
+// of a second process of the same binary that evaluates everything in the
+// opposite order. A process-wide cache whose content depends on which of two
+// equivalent requests came first shows up here and nowhere else (within one
+// process such a cache is self-consistent).
+func c20CrossProcess(r *mon.Run) {
+	m := r.Pick(6, 24)
+	fwd := c20Digests(r.Seed, false, m)
+	cmd := exec.Command(os.Args[0], "-test.run", "^TestMonitor$", "-test.timeout", "0")
+	cmd.Env = append(os.Environ(), "VERIF_STAGE=digest", "VERIF_PROP=C20", fmt.Sprintf("VERIF_SEED=%d", r.Seed), fmt.Sprintf("VERIF_C20_M=%d", m), "GORACE=")
+	outb, err := cmd.Output()
+	other := map[string]uint64{}
+	for _, line := range strings.Split(string(outb), "\n") {
+		var k string
+		var v uint64
+		if strings.HasPrefix(line, "DIGEST ") {
+			parts := strings.SplitN(line[7:], " ", 2)
+			if len(parts) == 2 {
+				fmt.Sscanf(parts[0], "%x", &v)
+				k = parts[1]
+				other[k] = v
+			}
+		}
+	}
+	if len(other) != len(fwd) {
+		r.Inconclusive(fmt.Sprintf("cross-process stage: second process returned %d digests, expected %d (%v)", len(other), len(fwd), err))
+		return
+	}
+	r.Serial("cross-process-order", 1, func(w *mon.W, _ int) {
+		w.Hit("cross-process-order")
+		for k, v := range fwd {
+			w.Eval("cross-process digest")
+			if other[k] != v {
+				w.Violate("order-dependent", fmt.Sprintf("%s: a process that made the same calls in the opposite order obtained different bits for this entry (results depend on the calls made before)", k), c20Case{0, k})
+			}
+		}
+		w.Distinct(uint64(m) + 77)
+	})
+	r.Extra("cross_process_digests_compared", len(fwd))
 }
 
 func findEntry(name string) *entry {
@@ -930,8 +1073,17 @@ func c20Run(r *mon.Run) {
 	r.Extra("exports_without_inventory_entry", uncovered)
 	r.Extra("documented_in_place_operations_excluded", documentedInPlace)
 
+	if stage == "digest" {
+		m, _ := strconv.Atoi(os.Getenv("VERIF_C20_M"))
+		for k, v := range c20Digests(r.Seed, true, m) {
+			fmt.Printf("DIGEST %x %s\n", v, k)
+		}
+		os.Exit(0)
+	}
+	r.Gate("cross-process-order")
 	if stage == "race" {
 		c20Concurrent(r, true)
+		r.Serial("cross-process-order", 1, func(w *mon.W, _ int) { w.Note("cross-process-order") })
 		return
 	}
 	nb := r.Pick(150, 1500)
@@ -940,6 +1092,7 @@ func c20Run(r *mon.Run) {
 		c20One(w, seed, seed^0x9e3779b97f4a7c15, "")
 		w.Distinct(seed)
 	})
+	c20CrossProcess(r)
 	c20Concurrent(r, false)
 }
 
@@ -999,7 +1152,7 @@ func c20Concurrent(r *mon.Run, race bool) {
 						if !race {
 							t0 = atomic.AddInt64(&clock, 1)
 						}
-						u, p, pv := runEntry(&c20Inventory[ei], b)
+						u, p, pv := runEntryO(&c20Inventory[ei], b, g%2 == 1, g)
 						if !race {
 							st = append(st, stamp{t0, atomic.AddInt64(&clock, 1)})
 						}
